@@ -73,7 +73,7 @@ def read(d, q):
   raise KeyError(q)
 
 
-def make_library(seed, diag_cls, par):
+def make_library(seed, diag_cls, par, level=0.0):
   """2 treatment series x 3 control series such that every quantity differs between any two versions and the joint
   verdict is True for some pairs and False for others."""
   for attempt in range(2000):
@@ -82,6 +82,11 @@ def make_library(seed, diag_cls, par):
     base = np.cumsum(rng.normal(size=n)) * 2 + 100
     ys = [3 * base + rng.normal(size=n) * 0.2 + 5, 2 * base[::-1] + rng.normal(size=n) * 0.2 + 11]
     xs = [base + rng.normal(size=n) * 0.05, rng.normal(size=n) * 3 + 50, base[::-1] + rng.normal(size=n) * 0.05]
+    if level:
+      # the same shapes on top of a level that dwarfs the variation: two different series are then "close" in
+      # relative terms although every derived quantity differs
+      ys = [v + level for v in ys]
+      xs = [v + level for v in xs]
     fresh = {}
     for yi in (1, 2):
       for xi in (0, 1, 2, 3):
@@ -167,6 +172,7 @@ def run(res):
   res.extra['as_is_variant_counterexample'] = {'violated': r0.violated, 'length': len(r0.error_trace)}
   # 2. behaviours
   lib = make_library(res.seed % 1000, diag_cls, par)
+  lib_high = make_library(res.seed % 1000, diag_cls, par, level=5.0e6)
   depth = 5 if thorough else 4
   r = tlc.run_tlc('DiagCache', CFG % ('{"D1"}', depth, 'INVARIANT Emit'), tlc.run_dir('C08_emit'), workers=1,
                   timeout=3000)
@@ -193,7 +199,9 @@ def run(res):
       continue
     seen.add(key)
     todo.append(hist)
-  results = par_mod.pmap(lambda h: replay_behaviour(diag_cls, par, lib, h), todo)
+  results = par_mod.pmap(lambda ih: replay_behaviour(diag_cls, par, lib_high if ih[0] % 3 == 2 else lib, ih[1]),
+                         list(enumerate(todo)))
+  res.extra['behaviours_on_high_level_series'] = len([1 for i in range(len(todo)) if i % 3 == 2])
   for hist, bad in zip(todo, results):
     res.case_seen(tuple((e['a'], e['arg']) for e in hist))
     res.traces += 1
@@ -205,8 +213,8 @@ def run(res):
     if any(names[i] == 'read' and any(n != 'read' for n in names[i + 1:]) for i in range(len(names))):
       stale_opportunities += 1
     if bad and len(res.violations) <= 25:
-      res.violate(bad[0], {'history': [(e['a'], e['arg'].strip('"')) for e in hist[:bad[2] + 1]], 'lib_seed': res.seed % 1000},
-                  bad[1])
+      res.violate(bad[0], {'history': [(e['a'], e['arg'].strip('"')) for e in hist[:bad[2] + 1]], 'lib_seed': res.seed % 1000,
+                           'level': 5.0e6 if todo.index(hist) % 3 == 2 else 0.0}, bad[1])
     if res.traces % 2500 == 3:
       res.sample([(e['a'], e['arg'].strip('"'), (e['y'], e['x'])) for e in hist])
   res.coverage_actions.update({'replayed.' + k: [v, v] for k, v in acts.items()})
@@ -227,7 +235,7 @@ def replay(res, blob):
   from matched_markets.methodology import tbrmmdiagnostics, tbrmmdesignparameters
   par = tbrmmdesignparameters.TBRMMDesignParameters(n_test=7, iroas=1.0)
   c = blob['case']
-  lib = make_library(c['lib_seed'], tbrmmdiagnostics.TBRMMDiagnostics, par)
+  lib = make_library(c['lib_seed'], tbrmmdiagnostics.TBRMMDiagnostics, par, level=c.get('level', 0.0))
   hist = [{'a': a, 'arg': arg, 'y': 0, 'x': 0} for a, arg in c['history']]
   # served versions are recomputed as "current" (the as-fixed spec always serves the current version or None)
   yv, xv = int(hist[0]['arg']), 0
